@@ -1469,6 +1469,13 @@ br_ssl_engine_hs_reset(br_ssl_engine_context *cc,
 	cc->application_data = 0;
 	cc->alert = 0;
 	cc->hs_unfinished = 1;
+
+	/*
+	 * The ECDHE curve is reported for the key exchange of this
+	 * connection, if there is one; a session resumption has none,
+	 * and must not show the curve used with a previous peer.
+	 */
+	cc->ecdhe_curve = 0;
 	jump_handshake(cc, 0);
 }
 
